@@ -133,5 +133,6 @@ def run(res, tier, seed, wd, replay=None):
     res.cov["rule"] = "evaluations = trace events (calls, datagrams received on real sockets, counters) judged by TLC; one trace = one sink from creation to drop; runs differ by sink kind / capacity / seed"
     res.add_tlc({"distinct": v["states"], "generated": v["states"]})
     res.sample({"kind": "trace excerpt (real sockets)", "events": read_ndjson(trD)[:10]})
-    selftest(res, trD, wd)
+    if not v["bad"]:
+        selftest(res, trD, wd)
     log("[verdict] %d events of %d traces validated by TLC: %d flagged rules" % (nev, ntr, len(v["bad"])))
